@@ -26,6 +26,7 @@ SOME_TO_OK = re.compile(r"^std::option::Option::<T>::(ok_or|ok_or_else)$")
 ERR_PRESERVING = re.compile(r"^std::result::Result::<T, E>::(map|inspect|inspect_err|and_then)$")
 MAP_OK = re.compile(r"^std::result::Result::<T, E>::map$|^std::option::Option::<T>::map$")
 MAP_ERR = re.compile(r"^std::result::Result::<T, E>::map_err$")
+TRANSPOSE = re.compile(r"^std::option::Option::<std::result::Result<T, E>>::transpose$")
 
 
 def nproj(p):
@@ -156,11 +157,13 @@ def _same_error_type(gargs):
     return a is not None and a == b
 
 
-def trace(fn, start, through=(), max_nodes=4000):
+def trace(fn, start, through=(), max_nodes=4000, blocks=None):
     """Origins of the value `start` (operand dict, place dict or (local, proj)), looking through moves, references,
     aggregates (field- and variant-sensitively), `?`, Ok-preserving adaptors and the callees in `through`
     (value-preserving views of their first argument).  Returns (origins, steps) — steps are the (callee, bb) looked
-    through, steps.locals the locals the value passed through (see mut_borrows)."""
+    through, steps.locals the locals the value passed through (see mut_borrows).
+    `blocks`: only definitions in these blocks count (e.g. blocks_through_edge: the origins a value can have on the
+    paths that take one edge of a test — a definition that such a path cannot execute cannot be what is read)."""
     rxs = [re.compile(p) for p in through]
     origins, okeys, steps = [], set(), Steps()
     seen, work = set(), []
@@ -215,6 +218,8 @@ def trace(fn, start, through=(), max_nodes=4000):
         if 1 <= l <= fn.argc:
             add("param", None, None, p, index=l)
         for bb, kind, node in defs.get(l, []):
+            if blocks is not None and bb not in blocks:
+                continue
             if kind == "assign":
                 wp = nproj(node["pl"]["p"])
                 rest = p
@@ -278,6 +283,10 @@ def trace(fn, start, through=(), max_nodes=4000):
                     continue
                 if SOME_TO_OK.search(callee) and args and _starts(rest, OK_0):
                     follow_op(args[0], SOME_0 + rest[2:], bb, node)
+                    continue
+                if TRANSPOSE.search(callee) and args and (_starts(rest, OK_0 + SOME_0) or _starts(rest, ERR_0)):
+                    # Option<Result<T, E>>::transpose: Ok(Some(v)) <- Some(Ok(v)), Err(e) <- Some(Err(e))
+                    follow_op(args[0], (SOME_0 + OK_0 + rest[4:]) if _starts(rest, OK_0) else (SOME_0 + rest), bb, node)
                     continue
                 if MAP_OK.search(callee) and len(args) > 1 and rest and rest[0][0] == "dc" and rest[0][1] in ("Ok", "Some") \
                         and len(rest) >= 2 and rest[1][0] == "f":
@@ -344,6 +353,40 @@ def ok_sites(fn):
     orig, _ = trace(fn, (0, (("dc", "Ok"),)))
     reach = fn.reachable(0)
     return sorted(set(o.bb for o in orig if o.bb is not None and o.bb in reach and o.kind in ("agg", "call")))
+
+
+def option_cases(fn, start, through=(), blocks=None, _depth=0):
+    """The cases an Option value can be, from its origins: ("some", (payload operand, extra projection), bb), ("none", None, bb)
+    or ("other", origin, bb).  `Option<Result<T, E>>::transpose(x)?` is looked through: its Ok payload is None when x is
+    None and Some((x as Some).0 as Ok .0) when x is Some — so `last().map(f).transpose()?`, `match last() { Some(i) =>
+    Some(f(i)?), None => None }` and `last().map_or(Ok(None), |i| f(i).map(Some))?` have the same cases."""
+    out = []
+    for o in trace(fn, start, through, blocks=blocks)[0]:
+        if o.kind == "agg" and o.info.get("adt") == "std::option::Option" and not o.proj and not o.info.get("via_map"):
+            if o.info.get("variant") == "Some" and o.info["fields"]:
+                out.append(("some", (o.info["fields"][0], ()), o.bb))
+            else:
+                out.append(("none", None, o.bb))
+        elif o.is_call(TRANSPOSE.pattern, None, OK_0) and o.node["args"] and _depth < 3:
+            for kind, pay, bb in option_cases(fn, o.node["args"][0], through, blocks, _depth + 1):
+                out.append((kind, (pay[0], pay[1] + OK_0), bb) if kind == "some" else (kind, pay, bb))
+        else:
+            out.append(("other", o, o.bb))
+    return out
+
+
+def trace_payload(fn, payload, through=(), blocks=None):
+    """Origins of a payload returned by option_cases."""
+    op, extra = payload
+    if op.get("k") in ("copy", "move"):
+        return trace(fn, (op["pl"]["l"], nproj(op["pl"]["p"]) + tuple(extra)), through, blocks=blocks)[0]
+    return trace(fn, op, through, blocks=blocks)[0] if not extra else []
+
+
+def blocks_through_edge(fn, feas, src, dst):
+    """Blocks that lie on some feasible path taking the edge src->dst: those from which src can be reached, and those that
+    can execute after the edge."""
+    return set(b for b in fn.reachable(0) if src in fn.reachable(b)) | feas.after_edge(src, dst)
 
 
 # ------------------------------------------------------------------------------------------------ feasible paths
@@ -551,28 +594,61 @@ def _reads(node_rv, l):
     return out
 
 
+class Ends(list):
+    """Ends of an error flow; .results = the locals that held a Result whose Err payload is the followed error, in the order met."""
+    results = ()
+
+
+BREAK_0 = (("dc", "Break"), ("f", 0, "0"))
+# aggregates an error may be wrapped in on its way out: (adt, variant) -> where the error must sit inside the wrapped operand
+_WRAPS = {("std::result::Result", "Err"): (), ("std::ops::ControlFlow", "Break"): ERR_0, ("std::option::Option", "Some"): ERR_0}
+
+
+def _prefix(p, pp):
+    """p is a prefix of pp (up to field names): the rest of pp; None when p reads something else; "inside" when p reads
+    into the error value itself."""
+    if len(p) <= len(pp):
+        return pp[len(p):] if _same(p, pp[:len(p)]) else None
+    return "inside" if _same(p[:len(pp)], pp) else None
+
+
 def err_flow(fn, result_local, max_nodes=400):
     """Forward flow of the Err payload E of the Result held in `result_local`.
-    Returns list of ends: dict(kind='returned'|'unknown', bb, transforms=[...], detail).  A transform is
+    Returns Ends: dict(kind='returned'|'unknown', bb, transforms=[...], detail).  A transform is
     ("fn", path) for a function applied to E (map_err(path) or a direct call), ("closure", Fn) for map_err(closure),
-    ("from",) for the `?` conversion."""
-    ends = []
+    ("from",) for the `?` conversion.
+    The state is (local, path): the error sits at `local.path` — ERR_0 in a Result, Break.0 + ERR_0 in the ControlFlow of a
+    `?`, Some.0 + ERR_0 in an Option<Result> before transpose, () once it is extracted.  So `x?`, the threaded form
+    `ControlFlow::Break(Err((x as Err).0))`, `Err(f((x as Err).0))` of a desugared map_err, `match x { Err(e) => return Err(f(e)) }`
+    and `Some(x).transpose()?` are the same flow."""
+    ends = Ends()
+    results = []
     seen = set()
-    work = [(result_local, "result", (), None)]
+    work = [(result_local, ERR_0, (), None)]
+    reach = fn.reachable(0)
+
+    def end(kind, bb, tr, detail):
+        ends.append({"kind": kind, "bb": bb, "transforms": list(tr), "detail": detail})
+
     while work:
-        l, mode, tr, wbb = work.pop()
-        key = (l, mode, tr)
+        l, pp, tr, wbb = work.pop()
+        key = (l, tuple(e[:2] for e in pp), tr)
         if key in seen:
             continue
         seen.add(key)
         if len(seen) > max_nodes:
-            ends.append({"kind": "unknown", "bb": None, "transforms": list(tr), "detail": "budget"})
+            end("unknown", None, tr, "budget")
             break
-        if l == 0 and mode == "result":
-            ends.append({"kind": "returned", "bb": wbb, "transforms": list(tr), "detail": "written to the return place"})
+        if _same(pp, ERR_0) and l not in results and fn.local_ty(l).startswith("std::result::Result<"):
+            results.append(l)
+        if l == 0:
+            if _same(pp, ERR_0):
+                end("returned", wbb, tr, "written to the return place")
+            else:
+                end("unknown", wbb, tr, "the error reaches the return place as %s, not as its Err payload" % (proj_str(pp) or "the whole value"))
             continue
         for bb, kind, node in fn.uses_of_local(l):
-            if bb not in fn.reachable(0):
+            if bb not in reach:
                 continue
             if kind in ("switch", "drop"):
                 continue
@@ -581,79 +657,68 @@ def err_flow(fn, result_local, max_nodes=400):
                 for how, p, extra in _reads(node["rv"], l):
                     if how == "discr":
                         continue
-                    if how == "other" or dp:
-                        ends.append({"kind": "unknown", "bb": bb, "transforms": list(tr), "detail": "used by %s" % (extra or "a partial write")})
+                    if how == "other":
+                        end("unknown", bb, tr, "used by %s" % extra)
                         continue
-                    if mode == "result":
-                        if how == "use" and not p:
-                            work.append((dst, "result", tr, bb))
-                        elif how == "use" and _same(p, ERR_0):
-                            work.append((dst, "payload", tr, bb))
-                        elif how == "use" and p and p[0] == ("dc", "Ok"):
-                            pass
+                    rest = _prefix(p, pp)
+                    if rest is None:
+                        continue                # another variant / another field: not the error
+                    if rest == "inside" or dp:
+                        end("unknown", bb, tr, "the error value is taken apart or written into part of a value")
+                        continue
+                    if how == "use":
+                        work.append((dst, rest, tr, bb))
+                    else:
+                        rv = node["rv"]
+                        want = _WRAPS.get((rv.get("adt"), rv.get("variant"))) if rv.get("agg") == "adt" else None
+                        if want is not None and _same(rest, want):
+                            work.append((dst, (("dc", rv["variant"]), ("f", 0, "0")) + rest, tr, bb))
                         else:
-                            ends.append({"kind": "unknown", "bb": bb, "transforms": list(tr), "detail": "the Result is stored in an aggregate / projected"})
-                    elif mode == "cf":
-                        if how == "use" and not p:
-                            work.append((dst, "cf", tr, bb))
-                        elif how == "use" and _same(p, (("dc", "Break"), ("f", 0, "0"))):
-                            work.append((dst, "resid", tr, bb))
-                        elif how == "use" and p and p[0] == ("dc", "Continue"):
-                            pass
-                        else:
-                            ends.append({"kind": "unknown", "bb": bb, "transforms": list(tr), "detail": "ControlFlow value used in an unexpected way"})
-                    elif mode == "resid":
-                        if how == "use" and not p:
-                            work.append((dst, "resid", tr, bb))
-                        elif how == "use" and _same(p, ERR_0):
-                            work.append((dst, "payload", tr, bb))
-                        else:
-                            ends.append({"kind": "unknown", "bb": bb, "transforms": list(tr), "detail": "residual used in an unexpected way"})
-                    elif mode == "payload":
-                        if how == "use" and not p:
-                            work.append((dst, "payload", tr, bb))
-                        elif how == "agg" and node["rv"].get("adt") == "std::result::Result" and node["rv"].get("variant") == "Err" and not p:
-                            work.append((dst, "result", tr, bb))
-                        else:
-                            ends.append({"kind": "unknown", "bb": bb, "transforms": list(tr), "detail": "error value stored in %s" % (node["rv"].get("adt") or node["rv"].get("agg") or "a projection")})
+                            end("unknown", bb, tr, "error value stored in %s" % (("%s::%s" % (rv.get("adt"), rv.get("variant"))) if rv.get("adt") else rv.get("agg") or "a projection"))
             elif kind == "call":
                 callee = node.get("callee") or "<indirect>"
                 args = node["args"]
                 dst = node["dest"]["l"]
                 idx = [i for i, a in enumerate(args) if a.get("k") in ("copy", "move") and a["pl"]["l"] == l]
-                whole = all(not nproj(args[i]["pl"]["p"]) for i in idx)
-                if not idx or not whole or node["dest"]["p"]:
-                    ends.append({"kind": "unknown", "bb": bb, "transforms": list(tr), "detail": "passed (projected) to %s" % callee})
+                rests = [_prefix(nproj(args[i]["pl"]["p"]), pp) for i in idx]
+                idx = [i for i, r in zip(idx, rests) if r is not None]
+                rests = [r for r in rests if r is not None]
+                if not idx:
                     continue
-                if mode == "result":
-                    if idx == [0] and TRY_BRANCH.search(callee):
-                        work.append((dst, "cf", tr, bb))
-                    elif idx == [0] and MAP_ERR.search(callee) and len(args) > 1:
+                if len(idx) != 1 or rests[0] == "inside" or node["dest"]["p"]:
+                    end("unknown", bb, tr, "passed (projected) to %s" % callee)
+                    continue
+                i, rest = idx[0], rests[0]
+                if not rest:
+                    # the error value itself is an argument
+                    work.append((dst, (), tr + (("fn", callee),), bb))
+                elif _same(rest, ERR_0):
+                    if i == 0 and TRY_BRANCH.search(callee):
+                        work.append((dst, BREAK_0 + ERR_0, tr, bb))
+                    elif i == 0 and FROM_RESIDUAL.search(callee):
+                        work.append((dst, ERR_0, tr + (("from",),), bb))
+                    elif i == 0 and MAP_ERR.search(callee) and len(args) > 1:
                         f = args[1]
                         if f.get("k") == "const" and f.get("fn"):
                             m = ("fn", f["fn"])
                         else:
                             g, _n = closure_of_operand(fn, f)
                             m = ("closure", g.id) if g is not None else ("opaque", bb)
-                        work.append((dst, "result", tr + (m,), bb))
-                    elif idx == [0] and ERR_PRESERVING.search(callee):
-                        work.append((dst, "result", tr, bb))
-                    elif idx == [0] and re.search(r"Result::<T, E>::(is_ok|is_err|as_ref)$", callee):
+                        work.append((dst, ERR_0, tr + (m,), bb))
+                    elif i == 0 and ERR_PRESERVING.search(callee):
+                        work.append((dst, ERR_0, tr, bb))
+                    elif i == 0 and re.search(r"Result::<T, E>::(is_ok|is_err|as_ref)$", callee):
                         if callee.endswith("as_ref"):
-                            work.append((dst, "result", tr, bb))
+                            work.append((dst, ERR_0, tr, bb))
                     else:
-                        ends.append({"kind": "unknown", "bb": bb, "transforms": list(tr), "detail": "the Result is consumed by %s" % callee})
-                elif mode == "resid":
-                    if FROM_RESIDUAL.search(callee):
-                        work.append((dst, "result", tr + (("from",),), bb))
-                    else:
-                        ends.append({"kind": "unknown", "bb": bb, "transforms": list(tr), "detail": "residual passed to %s" % callee})
-                elif mode == "payload":
-                    work.append((dst, "payload", tr + (("fn", callee),), bb))
+                        end("unknown", bb, tr, "the Result is consumed by %s" % callee)
+                elif _same(rest, SOME_0 + ERR_0) and i == 0 and TRANSPOSE.search(callee):
+                    work.append((dst, ERR_0, tr, bb))
                 else:
-                    ends.append({"kind": "unknown", "bb": bb, "transforms": list(tr), "detail": "ControlFlow passed to %s" % callee})
+                    end("unknown", bb, tr, "a value holding the error (%s) is passed to %s" % (proj_str(rest), callee))
             else:
-                ends.append({"kind": "unknown", "bb": bb, "transforms": list(tr), "detail": "used by a %s" % kind})
+                end("unknown", bb, tr, "used by a %s" % kind)
+    ends.results = tuple(results)
     return ends
 
 
